@@ -75,10 +75,12 @@ fn finding_for(c: &WsCase, symptom: &str) -> Option<&'static str> {
     // globals declared in several files: declaration / overload order and table-vs-member typing follow analysis order
     // (incl. one more/less `owner_members` entry: the member table of `G = G or {}` is owned by the table element or
     // by the global path depending on which file was analysed last; bounded, does not grow with repetitions)
-    const GLOBAL: &[&str] = &["global-type", "global-decl", "globals", "global-member-type", "global-type-in-diag", "count:member"];
+    const GLOBAL: &[&str] = &["global-type", "global-decl", "globals", "global-member-type", "global-type-in-diag", "count:member.owner_members+1"];
     // merge_def_type_with_table re-owns another file's members to the class; never undone
-    const BOUND: &[&str] = &["undefined-field-diag", "count:member", "type-members", "required-field-type"];
-    if class_bound_to_required_table(c) && BOUND.contains(&symptom) {
+    const BOUND: &[&str] = &["undefined-field-diag", "type-members", "required-field-type"];
+    // one re-owned member = one more owner item under the other file, one more owner / owner item
+    let bound_count = ["count:member.in_filed.items+", "count:member.owner_members+", "count:member.owner_members.items+"].iter().any(|p| symptom.starts_with(p));
+    if class_bound_to_required_table(c) && (BOUND.contains(&symptom) || bound_count) {
         return Some("class-bound-to-required-table/member-reowning");
     }
     if type_shared_across_files(c) && PROPERTY.contains(&symptom) {
@@ -132,18 +134,42 @@ fn class_of(c: &WsCase) -> Value {
     }
 }
 
+/// a random way of bringing all `n` files in: an initial batch (possibly empty) and then separate updates / batches,
+/// in a random order (every add order of member files vs declaring files occurs)
+fn staged_adds(rng: &mut Rng, n: usize) -> (Vec<usize>, Vec<AOp>) {
+    let mut order: Vec<usize> = (0..n).collect();
+    for i in (1..n).rev() {
+        order.swap(i, rng.below(i + 1));
+    }
+    let k = rng.below(n + 1);
+    let initial: Vec<usize> = order[..k].to_vec();
+    let mut ops = Vec::new();
+    let mut rest: Vec<usize> = order[k..].to_vec();
+    while !rest.is_empty() {
+        if rest.len() >= 2 && rng.chance(1, 3) {
+            ops.push(AOp::Batch(vec![rest[0], rest[1]]));
+            rest.drain(..2);
+        } else {
+            ops.push(AOp::Update(rest[0], 0));
+            rest.remove(0);
+        }
+    }
+    (initial, ops)
+}
+
 // ---------------------------------------------------------------- C10
 
 fn gen_c10(rng: &mut Rng) -> WsCase {
     let (files, probe) = gen_files_probe(rng);
     let n = files.len();
-    let initial: Vec<usize> = (0..n).collect();
+    let (initial, mut setup) = if rng.chance(1, 2) { staged_adds(rng, n) } else { ((0..n).collect(), Vec::new()) };
     let mut order: Vec<usize> = (0..n).collect();
     for i in (1..n).rev() {
         order.swap(i, rng.below(i + 1));
     }
     let k = rng.range(1, n);
     let mut ops = Vec::new();
+    ops.append(&mut setup);
     for &i in order.iter().take(k) {
         if rng.chance(1, 4) {
             ops.push(AOp::Update(i, 1));
@@ -196,6 +222,11 @@ fn oracle_c10(c: &WsCase, report: &mut Report) -> Fails {
         if let AOp::Update(i, _) | AOp::Resubmit(i) = op {
             // the file is (again) part of the workspace
             if sim.current[*i].is_some() {
+                removed.retain(|r| r != &c.files[*i].0);
+            }
+        }
+        if let AOp::Batch(v) = op {
+            for i in v {
                 removed.retain(|r| r != &c.files[*i].0);
             }
         }
@@ -267,9 +298,16 @@ fn oracle_c10(c: &WsCase, report: &mut Report) -> Fails {
 fn gen_c08(rng: &mut Rng) -> WsCase {
     let files = gen_files(rng);
     let n = files.len();
-    let initial: Vec<usize> = (0..n).collect();
-    let mut ops = Vec::new();
-    if rng.chance(1, 3) {
+    // either one full batch (optionally reindexed), or staged adds in any order followed by a reindex:
+    // both are "a consistent analysis (right after a full analysis or reindex)"
+    let (initial, mut ops) = if rng.chance(1, 3) {
+        let (i, mut o) = staged_adds(rng, n);
+        o.push(AOp::Reindex);
+        (i, o)
+    } else {
+        ((0..n).collect(), Vec::new())
+    };
+    if ops.is_empty() && rng.chance(1, 3) {
         ops.push(AOp::Reindex);
     }
     for _ in 0..rng.range(1, 6) {
@@ -289,10 +327,20 @@ fn oracle_c08(c: &WsCase, report: &mut Report) -> Fails {
     let qs = queries(&c.files);
     let mut sim = Sim::new(c.files.len(), c.strict);
     sim.initial(c);
+    // setup prefix: staged adds (files not yet present) and a reindex
     let mut k = 0;
-    if let Some(AOp::Reindex) = c.ops.first() {
-        sim.apply(c, &AOp::Reindex);
-        k = 1;
+    while k < c.ops.len() {
+        let is_setup = match &c.ops[k] {
+            AOp::Batch(_) | AOp::Reindex => true,
+            AOp::Update(i, 0) => sim.current[*i].is_none(),
+            _ => false,
+        };
+        if !is_setup {
+            break;
+        }
+        let op = c.ops[k].clone();
+        sim.apply(c, &op);
+        k += 1;
     }
     let base_dump = dump(&sim.a, &qs);
     let base_sizes = sizes(&sim.a);
@@ -349,7 +397,7 @@ fn gen_c09(rng: &mut Rng) -> WsCase {
             3 => AOp::Resubmit(i),
             4 | 5 => AOp::Remove(i),
             6 => AOp::Close(i),
-            _ => AOp::Reindex,
+            _ => if rng.chance(1, 2) { AOp::Reindex } else { AOp::Batch(vec![i, (i + 1) % n]) },
         });
     }
     ops.push(AOp::Reindex);
@@ -369,6 +417,7 @@ fn oracle_c09(c: &WsCase, report: &mut Report) -> Fails {
             AOp::Remove(_) => "c09_remove",
             AOp::Close(_) => "c09_close",
             AOp::Reindex => "c09_reindex",
+            AOp::Batch(_) => "c09_batch",
         });
     }
     let files = live_files(&sim, c);
@@ -428,6 +477,27 @@ fn corpus(prop: &str) -> Vec<WsCase> {
             WsCase { files: split.clone(), initial: vec![0, 1, 2], ops: vec![AOp::Update(1, 1), AOp::Update(1, 0), AOp::Close(2), AOp::Reindex], probe: None, strict: false },
         ],
     };
+    // regression (seeded `migrate_global_member` change): members of a global table contributed by another file that
+    // is added BEFORE / AFTER / in the same batch as the declaring file; then either side is removed
+    let reg = shapes().pop().map(|x| x.0).unwrap_or_default();
+    let rc = |ops: Vec<AOp>| WsCase { files: reg.clone(), initial: vec![], ops, probe: Some("function Gt.probe() end\nGt.version = 9\n".into()), strict: false };
+    base.extend(match prop {
+        "C10" => vec![
+            rc(vec![AOp::Update(0, 0), AOp::Update(1, 0), AOp::Update(2, 0), AOp::Remove(0), AOp::Remove(1)]),
+            rc(vec![AOp::Update(1, 0), AOp::Update(0, 0), AOp::Update(2, 0), AOp::Remove(0), AOp::Remove(1)]),
+            rc(vec![AOp::Batch(vec![0, 1]), AOp::Update(2, 0), AOp::Remove(1), AOp::Remove(0)]),
+            rc(vec![AOp::Update(0, 0), AOp::Update(2, 0), AOp::Update(1, 0), AOp::Close(0), AOp::Remove(2), AOp::Remove(1)]),
+        ],
+        "C08" => vec![
+            rc(vec![AOp::Update(0, 0), AOp::Update(1, 0), AOp::Update(2, 0), AOp::Reindex, AOp::Resubmit(0), AOp::Resubmit(1), AOp::Update(0, 1), AOp::Update(0, 0)]),
+            rc(vec![AOp::Update(1, 0), AOp::Batch(vec![0, 2]), AOp::Reindex, AOp::Resubmit(1), AOp::Update(1, 1), AOp::Update(1, 0), AOp::Resubmit(0)]),
+        ],
+        _ => vec![
+            rc(vec![AOp::Update(0, 0), AOp::Update(1, 0), AOp::Update(2, 0), AOp::Remove(0), AOp::Reindex]),
+            rc(vec![AOp::Update(0, 0), AOp::Update(1, 0), AOp::Update(2, 0), AOp::Remove(1), AOp::Reindex]),
+            rc(vec![AOp::Update(1, 0), AOp::Update(0, 0), AOp::Update(0, 1), AOp::Reindex]),
+        ],
+    });
     base.append(&mut extra);
     base.extend(match prop {
         "C10" => vec![sc(vec![AOp::Remove(1)]), sc(vec![AOp::Update(1, 1), AOp::Remove(0)]), sc(vec![AOp::Close(0), AOp::Remove(2)])],
@@ -438,7 +508,7 @@ fn corpus(prop: &str) -> Vec<WsCase> {
 }
 
 /// the 4 fixed workspace shapes (3 files, 2 variants each) of the exhaustive scope
-fn shapes() -> Vec<(Vec<(String, Vec<String>)>, bool)> {
+fn shapes() -> Vec<(Vec<(String, Vec<String>)>, bool, bool)> {
     let f = |name: &str, vs: &[&str]| (name.to_string(), vs.iter().map(|s| s.to_string()).collect::<Vec<_>>());
     vec![
         // S1: a class split over two files with docs, used by a third (shared symbol: open finding applies)
@@ -446,25 +516,32 @@ fn shapes() -> Vec<(Vec<(String, Vec<String>)>, bool)> {
             f("f0.lua", &["--- doc of Ca from f0\n---@class (partial) Ca\n---@field x0 integer\nlocal Ca = {}\n\nlocal M = {}\nM.value = 0\nreturn M\n", "---@class (partial) Ca\n---@field y0 string\n\nlocal M = {}\nM.value = 0\nreturn M\n"]),
             f("f1.lua", &["---@class (partial) Ca\nlocal Ca = {}\n--- method doc f1\nfunction Ca:m1() return 1 end\n", "print(1)\n"]),
             f("f2.lua", &["---@type Ca\nlocal c2\nprint(c2.x0, c2:m1())\nlocal m = require(\"f0\")\nprint(m.value)\n", "print(2)\n"]),
-        ], false),
+        ], false, false),
         // S2: disjoint symbols, cross-file requires
         (vec![
             f("f0.lua", &["--- doc of Ca0\n---@class Ca0\n---@field x0 integer\nlocal Ca0 = {}\n\nGa0 = 0\n\nlocal M = {}\nM.value = 0\nreturn M\n", "---@alias Al0 string|integer\n\nlocal M = {}\nM.value = 5\nreturn M\n"]),
             f("lib/f1.lua", &["---@enum En1\nlocal En = { A = 1, B = 2 }\n\n--- global fn doc f1\nfunction Gb1fn() return 1 end\n\nlocal M = {}\nM.value = 1\nreturn M\n", "local M = {}\nM.value = 6\nreturn M\n"]),
             f("f2.lua", &["local a = require(\"f0\")\nlocal b = require(\"lib.f1\")\nprint(a.value, b.value, Ga0, Gb1fn())\n---@type Ca0\nlocal c\nprint(c.x0)\n", "---@diagnostic disable-next-line: undefined-global\nprint(nope)\n"]),
-        ], false),
+        ], false, false),
         // S3: parent module next to a child module, strict require paths
         (vec![
             f("p/init.lua", &["local M = {}\nM.value = 0\nreturn M\n", "local M = {}\nM.value = 9\nreturn M\n"]),
             f("p/f1.lua", &["local M = {}\nM.value = 1\nreturn M\n", "local M = {}\nM.value = 8\nreturn M\n"]),
             f("main.lua", &["local c = require(\"p.f1\")\nlocal d = require(\"p\")\nprint(c.value, d.value)\n", "local c = require(\"p.f1\")\nprint(c.value)\n"]),
-        ], true),
+        ], true, false),
         // S4: globals, function docs, diagnostics annotations, operators
         (vec![
             f("f0.lua", &["--- global fn doc f0\nfunction Ga0fn() return 0 end\n\nGa0 = Ga0 or {}\nGa0.field0 = 0\n", "Ga0 = 1\n"]),
             f("f1.lua", &["---@class V1\n---@operator add(V1): V1\n\n---@diagnostic disable: unused\nlocal unused1 = 1\nprint(Ga0, Ga0fn())\n", "---@param a integer\n---@return integer\nlocal function lf1(a) return a end\nlf1(1)\n"]),
             f("f2.lua", &["---@type V1\nlocal v\nlocal w = v + v\nprint(w, Ga0.field0)\n", "print(Ga0)\n"]),
-        ], false),
+        ], false, false),
+        // S5 (staged: files are added one by one in every order): a global table declared in one file, its members
+        // (function, field, nested) contributed by another, read by a third
+        (vec![
+            f("ext.lua", &["function Gt.extra() end\nGt.version = 2\nGt.a.b = 1\n", "Gt.version = 3\n"]),
+            f("registry.lua", &["Gt = { name = \"r\", a = {} }\n", "Gt = { name = \"s\" }\n"]),
+            f("use.lua", &["print(Gt.extra, Gt.version, Gt.name, Gt.a.b)\nGt.extra()\n", "print(2)\n"]),
+        ], false, true),
     ]
 }
 
@@ -490,16 +567,16 @@ fn sequences<T: Clone>(alphabet: &[T], max_len: usize) -> Vec<Vec<T>> {
 /// {re-submit, edit+restore} × 3 files; C09 ≤ 3 steps over {edit, restore, remove, close} × 3 files + reindex
 fn exhaustive_ws(prop: &str) -> Vec<WsCase> {
     let mut out = Vec::new();
-    for (files, strict) in shapes() {
+    for (files, strict, staged) in shapes() {
         let seqs: Vec<Vec<AOp>> = match prop {
             "C10" => {
                 let mut al = Vec::new();
                 for i in 0..3 {
                     al.push(vec![AOp::Remove(i)]);
                     al.push(vec![AOp::Close(i)]);
-                    al.push(vec![AOp::Update(i, 1)]);
+                    al.push(vec![if staged { AOp::Update(i, 0) } else { AOp::Update(i, 1) }]);
                 }
-                sequences(&al, 3).into_iter().map(|s| s.concat()).filter(|s| s.iter().any(|o| matches!(o, AOp::Remove(_) | AOp::Close(_)))).collect()
+                sequences(&al, if staged { 4 } else { 3 }).into_iter().map(|s| s.concat()).filter(|s| s.iter().any(|o| matches!(o, AOp::Remove(_) | AOp::Close(_)))).collect()
             }
             "C08" => {
                 let mut al = Vec::new();
@@ -507,7 +584,26 @@ fn exhaustive_ws(prop: &str) -> Vec<WsCase> {
                     al.push(vec![AOp::Resubmit(i)]);
                     al.push(vec![AOp::Update(i, 1), AOp::Update(i, 0)]);
                 }
-                sequences(&al, 4).into_iter().map(|s| s.concat()).collect()
+                if staged {
+                    // every add order (single updates, or the first two in one batch), then a reindex, then <= 3 units
+                    let mut setups: Vec<Vec<AOp>> = Vec::new();
+                    for p in [[0, 1, 2], [0, 2, 1], [1, 0, 2], [1, 2, 0], [2, 0, 1], [2, 1, 0]] {
+                        setups.push(vec![AOp::Update(p[0], 0), AOp::Update(p[1], 0), AOp::Update(p[2], 0), AOp::Reindex]);
+                        setups.push(vec![AOp::Batch(vec![p[0], p[1]]), AOp::Update(p[2], 0), AOp::Reindex]);
+                    }
+                    let units = sequences(&al, 3);
+                    let mut v = Vec::new();
+                    for su in &setups {
+                        for u in &units {
+                            let mut ops = su.clone();
+                            ops.extend(u.concat());
+                            v.push(ops);
+                        }
+                    }
+                    v
+                } else {
+                    sequences(&al, 4).into_iter().map(|s| s.concat()).collect()
+                }
             }
             _ => {
                 let mut al = Vec::new();
@@ -518,11 +614,15 @@ fn exhaustive_ws(prop: &str) -> Vec<WsCase> {
                     al.push(vec![AOp::Close(i)]);
                 }
                 al.push(vec![AOp::Reindex]);
+                if staged {
+                    al.push(vec![AOp::Batch(vec![0, 1])]);
+                    al.push(vec![AOp::Batch(vec![1, 2])]);
+                }
                 sequences(&al, 3).into_iter().map(|s| { let mut v = s.concat(); v.push(AOp::Reindex); v }).collect()
             }
         };
         for ops in seqs {
-            out.push(WsCase { files: files.clone(), initial: vec![0, 1, 2], ops, probe: None, strict });
+            out.push(WsCase { files: files.clone(), initial: if staged { vec![] } else { vec![0, 1, 2] }, ops, probe: None, strict });
         }
     }
     out
